@@ -2,8 +2,38 @@
 import os
 
 
+def expr_tokens(e):
+    """Token list of a calculation expression for the specification (same order as the text)."""
+    k = e["e"]
+    if k == "int":
+        return [["int", e["v"]]]
+    if k == "ref":
+        return [["ref", list(e["path"])]]
+    if k == "bin":
+        return expr_tokens(e["l"]) + [["op", e["op"]]] + expr_tokens(e["r"])
+    if k == "par":
+        return [["lp"]] + expr_tokens(e["x"]) + [["rp"]]
+    if k == "toks":
+        return [list(t) for t in e["toks"]]
+    raise ValueError(k)
+
+
 def expr_text(e):
     k = e["e"]
+    if k == "toks":
+        parts = []
+        for t in e["toks"]:
+            if t[0] == "int":
+                parts.append(hex(t[1]) if len(t) > 2 and t[2] == "hex" else str(t[1]))
+            elif t[0] == "ref":
+                parts.append(".".join(t[1]))
+            elif t[0] == "op":
+                parts.append(t[1])
+            elif t[0] == "lp":
+                parts.append("(")
+            elif t[0] == "rp":
+                parts.append(")")
+        return " ".join(parts)
     if k == "int":
         return hex(e["v"]) if e.get("hex") else str(e["v"])
     if k == "ref":
@@ -43,10 +73,13 @@ def render_decls(decls, lay, depth, out):
     pad = " " * (lay.indent * depth)
     semi = ";" if lay.semi else ""
     for d in decls:
+        for _ in range(d.get("blank_before", 0)):
+            out.append("")
         for c in d.get("comment", []):
             out.append(pad + "// " + c if c else pad + "//")
         sm = ";" if d.get("semi", lay.semi) else ""
         k = d["d"]
+        d["_line"] = len(out) + 1
         if k == "proto":
             out.append("%sproto %s%s" % (pad, d["name"], sm))
             out.append("")
@@ -65,6 +98,7 @@ def render_decls(decls, lay, depth, out):
         elif k == "enum":
             out.append("%senum %s : uint%d {" % (pad, d["name"], d["n"]))
             render_decls(d["body"], lay, depth + 1, out)
+            d["_eline"] = len(out) + 1
             out.append(pad + "}")
         elif k == "efield":
             v = d["value"]
@@ -72,6 +106,7 @@ def render_decls(decls, lay, depth, out):
         elif k == "message":
             out.append("%smessage %s%s {" % (pad, d["name"], "'" if d["ext"] else ""))
             render_decls(d["body"], lay, depth + 1, out)
+            d["_eline"] = len(out) + 1
             out.append(pad + "}")
         elif k == "field":
             out.append("%s%s %s = %d%s" % (pad, type_text(d["t"]), d["name"], d["num"], sm))
